@@ -522,6 +522,23 @@ def main(ctx):
                                      'error': (r.get('write_error') or r.get('read_error') or '')[:60]},
                           what='write or read-back raised on a well-formed mesh')
             continue
+        # the caller's mesh is not modified by write(), and writing the same object a second
+        # time gives the same file
+        if r.get('mutated') or r.get('write2_error') or r.get('msh2') != r.get('msh'):
+            impl_bad += 1
+            what = ('write() modified the in-memory mesh: ' + ','.join(r['mutated'])) if r.get('mutated') \
+                else 'the second write of the same FEMData differs from the first'
+            l2 = (r.get('msh2') or '').split('\n')
+            diff_at = next((k for k, (a, b) in enumerate(zip(r['lines'], l2)) if a != b), None)
+            ctx.violation('impl-violation', {'mesh': m},
+                          'write() leaves the mesh as it was; a second write gives the same file',
+                          {'mutated': r.get('mutated'), 'write2_error': r.get('write2_error'),
+                           'first_differing_line': [r['lines'][diff_at], l2[diff_at]] if diff_at is not None else None},
+                          'C01_msh_roundtrip / oracle on implementation (mesh held by the caller)',
+                          found_input=True,
+                          signature={'oracle': 'rewrite', 'mutated': ','.join(r.get('mutated') or []),
+                                     'types': ','.join(t for t in m['meta']['types'] if t == 'prism')},
+                          what=what)
         comps = roundtrip_diff(m, r['read'])
         if comps:
             impl_bad += 1
@@ -605,7 +622,7 @@ def main(ctx):
         ctx.violation('correspondence', {}, 'correspondence files compile', 'coqc failed',
                       'correspondence C01', found_input=False,
                       signature={'kind': 'correspondence', 'side': 'coqc'})
-    if not tie_ok and impl_bad == 0:
+    if not tie_ok:
         ctx.violation('tie-broken', {'translator_error': ctx.notes.get('translator_error')},
                       'translator accepts the table / permutation / format regions', 'fail-closed',
                       'translator c01_tables', found_input=False, signature={'kind': 'tie-broken'})
@@ -678,6 +695,9 @@ def replay(path):
         model = coq_show(ctx, 'Replay', f'show_lines (write_msh {cm.coq_mesh(m)})')
         print('model text         :', json.dumps(model))
         bad = 'read' not in res or bool(roundtrip_diff(m, res['read']))
+        print('mesh modified by write():', res.get('mutated'), '; second write identical:',
+              res.get('msh2') == res.get('msh'))
+        bad = bad or bool(res.get('mutated')) or res.get('msh2') != res.get('msh')
         if 'read' in res:
             print('round trip differs in:', roundtrip_diff(m, res['read']))
         print('property', 'VIOLATED' if bad else 'holds', 'on this input')
